@@ -457,6 +457,9 @@ UNIT = Unit("codec", ["base.rs"], [
                 ("C09", "plane-exact", "r is Ok ==> forall|i: int, j: int| 0 <= i < height && 0 <= j < width ==> final(output)@[((height - 1 - i) * width + j) * 4] == #[trigger] decode_plane(old(input).rest(), width as nat, height as nat)->Some_0.0[i][j]")],
        pre=PP_PRE, loops=PP_LOOPS, hints=PP_HINTS, claims=PP_CLAIMS),
     Fn(RLE, "rle_32_decompress", mod="rle", props=["C08", "C09"],
+       # refusal-justification: the format byte is refused only when it is not 0x10, the output buffer only when it is really smaller than width*height*4
+       claims=[(r'return Err\(Error::RdpError\(RdpError::new\(RdpErrorKind::UnexpectedType, "[^"]*"\)\)\)', 1, "proof { assert(input@.len() >= 1 && input@[0] != 0x10); }", "before", "C09", "header-refused-only-when-not-0x10"),
+               (r'return Err\(Error::RdpError\(RdpError::new\(RdpErrorKind::InvalidSize, "[^"]*"\)\)\)', 1, "proof { assert(output@.len() < width as int * height as int * 4); }", "before", "C08,C09", "output-refused-only-when-too-small")],
        ensures=[("C08", "len", "final(output)@.len() == old(output)@.len()"),
                 ("C09", "planar-header", "r is Ok ==> input@.len() >= 1 && input@[0] == 0x10"),
                 ("C09", "planar-exact", "r is Ok && width > 0 && height > 0 ==> planar_image(input@, width as nat, height as nat) is Some && final(output)@.take(width as int * height as int * 4) == planar_image(input@, width as nat, height as nat)->Some_0"),
@@ -566,6 +569,10 @@ proof {
                 "proof { assert(!rle16_excluded(self.data@, self.width as nat, 0) ==> rle16_decode(self.data@, self.width as nat) is Some "
                 "&& rle16_exact(rle16_decode(self.data@, self.width as nat)->Some_0, self.width as int, self.height as int, result@)); }",
                 "after", "C09", "rle16-call-roles"),
+               # refusal-justification for the two RAW paths: data of exactly the right size is never refused (32 bpp: refused only when the size differs;
+               # 16 bpp: only when the data is SHORTER than width*height*2)
+               (r'return Err\(Error::RdpError\(RdpError::new\(RdpErrorKind::InvalidSize, "[^"]*"\)\)\)', 1, "proof { assert(self.data@.len() != self.width as int * self.height as int * 4); }", "before", "C08,C09", "raw32-refused-only-for-another-size"),
+               (r'return Err\(Error::RdpError\(RdpError::new\(RdpErrorKind::InvalidSize, "[^"]*"\)\)\)', 2, "proof { assert(self.data@.len() < self.width as int * self.height as int * 2); }", "before", "C08,C09", "raw16-refused-only-when-too-short"),
                (r"rle_32_decompress\([^\n]*\)\?;", 1,
                 "proof { assert(self.width > 0 && self.height > 0 ==> planar_image(self.data@, self.width as nat, self.height as nat) is Some "
                 "&& result@.take(self.width as int * self.height as int * 4) == planar_image(self.data@, self.width as nat, self.height as nat)->Some_0); }",
